@@ -16,6 +16,7 @@ import (
 	"os"
 	"os/exec"
 	"path/filepath"
+	"regexp"
 	"runtime"
 	"strconv"
 	"strings"
@@ -165,11 +166,29 @@ func (s *hostileServer) validBody(r *http.Request) []byte {
 			}
 			return bytes.Repeat([]byte{0x42}, 32*t.W)
 		}
-		// tessera-style tile: concatenated hashes
+		// tessera-style tile (tile/<level>/<index>[.p/<width>]): concatenated node hashes
+		if m := tesseraTileRE.FindStringSubmatch(rel); m != nil {
+			level, _ := strconv.ParseUint(m[1], 10, 64)
+			n, _ := strconv.ParseUint(strings.ReplaceAll(strings.ReplaceAll(m[2], "x", ""), "/", ""), 10, 64)
+			width := uint64(256)
+			if m[3] != "" {
+				width, _ = strconv.ParseUint(m[3], 10, 64)
+			}
+			if level <= 6 && width >= 1 && width <= 256 && n < 1<<40 && (n*256+width)<<(8*level) <= realSize {
+				var buf bytes.Buffer
+				for i := uint64(0); i < width; i++ {
+					h := br.NodeAt(uint8(8*level), n*256+i)
+					buf.Write(h[:])
+				}
+				return buf.Bytes()
+			}
+		}
 		return bytes.Repeat([]byte{0x42}, 32*7)
 	}
 	return []byte("hello")
 }
+
+var tesseraTileRE = regexp.MustCompile(`^tile/(\d+)/((?:x\d{3}/)*\d{3})(?:\.p/(\d+))?$`)
 
 type realAdapter struct{ w *witness.Witness }
 
